@@ -351,14 +351,16 @@ example : loadKey .ws (some ['#']) "C major\nD minor\n".toList = .error .notOneL
 
 /-! ## ragged time series -/
 
-/-- **ragged round trip.** Rows with any number of values (zero included ⇒ empty array) are loaded as the written
-    times and value lists, in order, comments skipped — with `header` false or true alike (no header row is
-    written here; see `ragged_header_full_statement` for a file that does have one). -/
+/-- **ragged round trip, with or without a header row.** Rows with any number of values (zero included ⇒ empty
+    array) are loaded as the written times and value lists, in order, comments skipped.  With `header=True` the file
+    starts with a header line — ANY text without a newline: a textual header, a comment, even numbers — which is
+    not parsed. -/
 theorem ragged_roundtrip {α : Type} (tconv vconv : Conv α) (d : Delim) (c : Option (List Char)) (header : Bool)
-    (items : List (RItem α)) (h : ∀ it ∈ items, it.WF tconv vconv d c) :
-    loadRagged tconv vconv d header c (renderRagged items) =
+    (hdr : List Char) (hh : '\n' ∉ hdr) (items : List (RItem α)) (h : ∀ it ∈ items, it.WF tconv vconv d c) :
+    loadRagged tconv vconv d header c (withHeader header hdr (renderRagged items)) =
       .ok ((raggedData items).map Prod.fst, (raggedData items).map Prod.snd) := by
   unfold loadRagged
+  rw [raggedLines_withHeader header hdr _ hh]
   have hs := splitLines_renderRagged items h []
   simp only [List.append_nil, splitLines] at hs
   rw [hs]
@@ -369,55 +371,57 @@ theorem ragged_roundtrip {α : Type} (tconv vconv : Conv α) (d : Delim) (c : Op
 example : loadRagged floatConv intConv (.lit [',']) false (some ['#']) "0.0,60,64\n# c\n0.5\n1.0,72\n".toList
     = .ok (["0.0".toList, "0.5".toList, "1.0".toList], [["60".toList, "64".toList], [], ["72".toList]]) := by
   decide
-
-/-- **unparsable time stamp**: the `ValueError` names the line, numbered from 0 — or from 1 with `header=True`
-    (the loader's own numbering). -/
-theorem ragged_bad_time_error {α : Type} (tconv vconv : Conv α) (d : Delim) (c : Option (List Char))
-    (header : Bool) (items : List (RItem α)) (h : ∀ it ∈ items, it.WF tconv vconv d c)
-    (bad tail : List Char) (hn : '\n' ∉ bad) (hc : isComment c (bad ++ ['\n']) = false)
-    (t : List Char) (vs : List (List Char)) (hsplit : reSplit d 0 (stripPy (bad ++ ['\n'])) = t :: vs)
-    (ht : tconv t = none) :
-    loadRagged tconv vconv d header c (renderRagged items ++ (bad ++ '\n' :: tail)) =
-      .error (.convert ((if header then 1 else 0) + items.length) 0) := by
-  unfold loadRagged
-  rw [splitLines_renderRagged items h, splitLines_line hn, loadRaggedRows_items items h]
-  simp [loadRaggedRows, hc, loadRaggedLine, hsplit, ht]
-
-/-- FULL-STRENGTH statement for files that DO have a header row (the documented meaning of `header=True`):
-    the header is skipped and the series returned.  FALSE for the code as it is: see below. -/
-def ragged_header_full_statement : Prop :=
-  ∀ (tconv vconv : Conv (List Char)) (d : Delim) (c : Option (List Char)) (hdr : List Char)
-    (items : List (RItem (List Char))),
-    '\n' ∉ hdr → isComment c (hdr ++ ['\n']) = false → (∀ it ∈ items, it.WF tconv vconv d c) →
-    loadRagged tconv vconv d true c (hdr ++ '\n' :: renderRagged items) =
-      .ok ((raggedData items).map Prod.fst, (raggedData items).map Prod.snd)
-
-/-- witness: the file `"time f0\n"` (a header and no data) loaded with `header=True` raises at "row 1" -/
-theorem ragged_header_full_statement_false : ¬ ragged_header_full_statement := by
-  intro hfull
-  have := hfull floatConv floatConv .ws (some ['#']) "time f0".toList [] (by decide) (by decide)
-    (by intro it hit; simp at hit)
-  revert this
-  decide
-
-/-- the reproducer with data rows, on the driver's converters -/
+/-- the former defect's witness: a textual header is skipped -/
 example : loadRagged floatConv floatConv .ws true (some ['#']) "time f0\n0.0 1.0\n".toList
-    = .error (.convert 1 0) := by decide
+    = .ok (["0.0".toList], [["1.0".toList]]) := by decide
 
-/-- **what `header=True` really does** (the strongest true statement): nothing but adding one to the row number
-    carried by an error; successful loads are identical. -/
-theorem ragged_header_partial {α : Type} (tconv vconv : Conv α) (d : Delim) (c : Option (List Char))
-    (s : List Char) :
-    loadRagged tconv vconv d true c s =
+/-- **`header=True` means: skip the first line.** Loading `hdr\n` followed by `s` with `header=True` is loading `s`
+    with `header=False`, except that the row number carried by an error is one more (rows after the header are
+    numbered from 1, rows of a header-less file from 0). -/
+theorem ragged_header_skipped {α : Type} (tconv vconv : Conv α) (d : Delim) (c : Option (List Char))
+    (hdr s : List Char) (hh : '\n' ∉ hdr) :
+    loadRagged tconv vconv d true c (hdr ++ '\n' :: s) =
       match loadRagged tconv vconv d false c s with
       | .ok x => .ok x
       | .error e => .error e.shiftRow := by
   unfold loadRagged
-  simp only [if_true, Bool.false_eq_true, if_false]
+  simp only [if_true, Bool.false_eq_true, if_false, splitLines_line hh, List.drop_succ_cons, List.drop_zero]
   rw [loadRaggedRows_shift]
   cases loadRaggedRows tconv vconv d c 0 (splitLines s) with
   | ok rows => rfl
   | error e => rfl
+
+/-- an empty file, or a file holding nothing but an unterminated header, loads as the empty series with
+    `header=True` -/
+theorem ragged_header_only {α : Type} (tconv vconv : Conv α) (d : Delim) (c : Option (List Char))
+    (hdr : List Char) (hh : '\n' ∉ hdr) : loadRagged tconv vconv d true c hdr = .ok ([], []) := by
+  unfold loadRagged
+  cases hdr with
+  | nil => rfl
+  | cons x xs => simp [splitLines_last hh (by simp), loadRaggedRows]
+
+example : loadRagged floatConv floatConv .ws true (some ['#']) [] = .ok ([], []) := by decide
+example : loadRagged floatConv floatConv .ws true (some ['#']) "time f0\n".toList = .ok ([], []) := by decide
+
+/-- **unparsable time stamp**: the `ValueError` names the line as the loader numbers it: from 0 in a header-less
+    file, from 1 after the header row with `header=True`. -/
+theorem ragged_bad_time_error {α : Type} (tconv vconv : Conv α) (d : Delim) (c : Option (List Char))
+    (header : Bool) (hdr : List Char) (hh : '\n' ∉ hdr)
+    (items : List (RItem α)) (h : ∀ it ∈ items, it.WF tconv vconv d c)
+    (bad tail : List Char) (hn : '\n' ∉ bad) (hc : isComment c (bad ++ ['\n']) = false)
+    (t : List Char) (vs : List (List Char)) (hsplit : reSplit d 0 (stripPy (bad ++ ['\n'])) = t :: vs)
+    (ht : tconv t = none) :
+    loadRagged tconv vconv d header c (withHeader header hdr (renderRagged items ++ (bad ++ '\n' :: tail))) =
+      .error (.convert ((if header then 1 else 0) + items.length) 0) := by
+  unfold loadRagged
+  rw [raggedLines_withHeader header hdr _ hh, splitLines_renderRagged items h, splitLines_line hn,
+    loadRaggedRows_items items h]
+  simp [loadRaggedRows, hc, loadRaggedLine, hsplit, ht]
+
+example : loadRagged floatConv floatConv .ws true (some ['#']) "time f0\n0.0 1.0\nx 2\n".toList
+    = .error (.convert 2 0) := by decide
+example : loadRagged floatConv floatConv .ws false (some ['#']) "0.0 1.0\nx 2\n".toList
+    = .error (.convert 1 0) := by decide
 
 /-! ## pattern files -/
 
@@ -447,53 +451,39 @@ example : loadPatterns floatConv "pattern1\noccurrence1\n0.5, 67.0\n1.0,64\noccu
     = .ok [[[("0.5".toList, " 67.0\n".toList), ("1.0".toList, "64\n".toList)], [("4.5".toList, " 65\n".toList)]],
            [[("9".toList, " 60\n".toList)]]] := by decide
 
-/-- FULL-STRENGTH statement of the error clause for pattern files: a data line that is not a well-formed point
-    line raises `ValueError`.  FALSE for the code as it is. -/
-def patterns_malformed_row_full_statement : Prop :=
-  ∀ (conv : Conv (List Char)) (st : PatState (List Char)) (line : List Char),
-    hasSub patKw line = false → hasSub occKw line = false → (∀ xy, ¬ PairLine conv line xy) →
-    ∃ e, patStep conv st line = .error e ∧ e.toPy = .valueError
-
-/-- witness: the one-column row `"1.0\n"` raises `IndexError` (`string_values[1]`) -/
-theorem patterns_malformed_row_full_statement_false : ¬ patterns_malformed_row_full_statement := by
-  intro hfull
-  have hno : ∀ xy, ¬ PairLine floatConv "1.0\n".toList xy := by
-    intro xy ⟨_, _, ta, tb, more, hs, _, _⟩
-    have : splitComma "1.0\n".toList = ["1.0\n".toList] := by decide
-    rw [this] at hs
-    simp at hs
-  obtain ⟨e, he, hpy⟩ := hfull floatConv PatState.init "1.0\n".toList (by decide) (by decide) hno
-  have : patStep floatConv PatState.init "1.0\n".toList = .error .shortRow := by decide
-  rw [this] at he
-  cases he
-  revert hpy
-  decide
-
-/-- **the strongest true statement**: a malformed data line raises `ValueError` as soon as it has at least two
-    comma-separated fields or its first field is not a number; the remaining case (a single, numeric field)
-    raises `IndexError`. -/
-theorem patterns_error_partial {α : Type} (conv : Conv α) (st : PatState α) (line : List Char)
+/-- **malformed rows of a pattern file raise `ValueError`.** A data line (neither header keyword in it) that is
+    not a well-formed point line — a single column, or a first or second field that is not a number — makes
+    `load_patterns` fail with a `ValueError` (this loader's messages carry no row number). -/
+theorem patterns_malformed_row_error {α : Type} (conv : Conv α) (st : PatState α) (line : List Char)
     (hp : hasSub patKw line = false) (ho : hasSub occKw line = false) (hbad : ∀ xy, ¬ PairLine conv line xy) :
-    (∀ a rest, splitComma line = a :: rest → (rest ≠ [] ∨ conv a = none) →
-        ∃ e, patStep conv st line = .error e ∧ e.toPy = .valueError) ∧
-    (∀ a x, splitComma line = [a] → conv a = some x → patStep conv st line = .error .shortRow) := by
-  constructor
-  · intro a rest hs hcase
+    ∃ e, patStep conv st line = .error e ∧ e.toPy = .valueError := by
+  match hs : splitComma line with
+  | [] => exact ⟨.singleColumn, by simp [patStep, hp, ho, hs], rfl⟩
+  | [a] => exact ⟨.singleColumn, by simp [patStep, hp, ho, hs], rfl⟩
+  | a :: b :: more =>
     cases ha : conv a with
     | none => exact ⟨.badNumber, by simp [patStep, hp, ho, hs, ha], rfl⟩
     | some x =>
-      cases rest with
-      | nil => rcases hcase with h | h
-               · exact absurd rfl h
-               · rw [ha] at h; cases h
-      | cons b more =>
-        cases hb : conv b with
-        | none => exact ⟨.badNumber, by simp [patStep, hp, ho, hs, ha, hb], rfl⟩
-        | some y => exact absurd ⟨hp, ho, a, b, more, hs, ha, hb⟩ (hbad (x, y))
-  · intro a x hs ha
-    simp [patStep, hp, ho, hs, ha]
+      cases hb : conv b with
+      | none => exact ⟨.badNumber, by simp [patStep, hp, ho, hs, ha, hb], rfl⟩
+      | some y => exact absurd ⟨hp, ho, a, b, more, hs, ha, hb⟩ (hbad (x, y))
 
+/-- **whatever the file, `load_patterns` fails only with `ValueError`.** -/
+theorem patterns_errors_are_valueErrors {α : Type} (conv : Conv α) (s : List Char) (e : LoadErr)
+    (h : loadPatterns conv s = .error e) : e.toPy = .valueError := by
+  unfold loadPatterns at h
+  cases hr : patRun conv PatState.init (splitLines s) with
+  | ok st => simp [hr] at h
+  | error e' =>
+    simp only [hr, Except.error.injEq] at h
+    subst h
+    exact patRun_error conv _ _ e' hr
+
+/-- the former defect's witness: a one-column row is a `ValueError` now -/
+example : loadPatterns floatConv "pattern1\noccurrence1\n1.0\n".toList = .error .singleColumn := by decide
+example : (LoadErr.singleColumn).toPy = .valueError := rfl
 example : loadPatterns floatConv "pattern1\noccurrence1\nabc, 60\n".toList = .error .badNumber := by decide
-example : (LoadErr.shortRow).toPy = .indexError := rfl
+/-- the column count is tested before the numbers are parsed -/
+example : loadPatterns floatConv "pattern1\noccurrence1\nabc\n".toList = .error .singleColumn := by decide
 
 end Mir.C20
